@@ -1,10 +1,12 @@
 import Driver.C16
+import Driver.C17
 /-! Line-protocol driver: one op per line on stdin (`<Cxx> <op> <args…>`), one answer per line. -/
 open Driver
 
 def dispatch (line : String) : String :=
   match tokens line with
   | "C16" :: rest => Driver.C16.handle rest
+  | "C17" :: rest => Driver.C17.handle rest
   | _ => "bad-op"
 
 partial def loop (h : IO.FS.Stream) (out : IO.FS.Stream) : IO Unit := do
